@@ -254,9 +254,12 @@ class _R:
         elif o == 3:
             self.line([(" " * (cols + 3), None)])    # whitespace-only line, more spaces than the indent
 
-    def comments(self, lead, cols):
+    def comments(self, lead, cols, first_child=True):
         for c in lead:
-            self.line([(" " * cols + "// " + c, None)] + self.tail())
+            # a whole-line comment may stand at column 0 whatever the depth ("line start"); not offered before the FIRST child of a
+            # block, where the column decides whether the block has a body at all
+            dedent = cols > 0 and not first_child and self.pick("comment_col0", 2) == 1
+            self.line([("" if dedent else " " * cols) + "// " + c if False else (("" if dedent else " " * cols) + "// " + c, None)] + self.tail())
 
     def kv(self, key, v, cols, trail=None, allow_multiword=True):
         """KEY::value at column offset cols."""
@@ -285,17 +288,17 @@ class _R:
                 self.line([(ln, None)])
         self.line([(pad + fence, None)])
 
-    def node(self, n, cols):
+    def node(self, n, cols, first_child=True):
         k = n[0]
         if k == "A":
             _, key, v, lead, trail = n
             self.blank(cols)
-            self.comments(lead, cols)
+            self.comments(lead, cols, first_child)
             self.kv(key, v, cols, trail)
         elif k == "B":
             _, key, target, children, lead = n
             self.blank(cols)
-            self.comments(lead, cols)
+            self.comments(lead, cols, first_child)
             head = " " * cols + key
             segs = [(head, None)]
             if target:
@@ -309,10 +312,11 @@ class _R:
         elif k == "S":
             _, sid, name, ann, children, lead = n
             self.blank(cols)
-            self.comments(lead, cols)
+            self.comments(lead, cols, first_child)
             segs = [(" " * cols, None)] + self.v_ops("§", False) + [(sid + "::" + name, None)]
             if ann:
-                segs.append(("[" + ann + "]", None))
+                # a blank between the section name and its bracket annotation is accepted on input
+                segs.append(((" " if self.pick("annot_space", 2) == 1 else "") + "[" + ann + "]", None))
             self.line(segs + self.tail())
             self.children(children, cols)
         elif k == "Z":
@@ -326,8 +330,8 @@ class _R:
         if not children:
             return
         w = [2, 3, 4][self.pick("indent", 3)]
-        for c in children:
-            self.node(c, cols + w)
+        for i, c in enumerate(children):
+            self.node(c, cols + w, first_child=(i == 0))
 
     def meta(self, meta, inner=()):
         self.line([("META:", None)] + self.tail())
